@@ -108,6 +108,18 @@ CLAIMED = {
         note=('Numeric closeness is enumeration in the harness with an exact-rational oracle (TLC has no reals); names without '
               'spaces; |integers| <= 2^53; field width >= 2.'),
         technique='TLA+ spec + TLC model checking; TLC oracle table replayed on the writer; independent splitter + LASRead round trip'),
+    'C17': dict(
+        category='exploration', design='3/C17',
+        text=('The conversion laws (identity, invertibility, transitivity, the dimension/unknown-unit gate), the agreement of '
+              'the two code variants with the affine formula and the equality of the chained in-place array conversion with '
+              'element-wise conversion are model checked by TLC in exact rationals (Units.tla).  The floating-point tables '
+              'are beyond TLC (32-bit integers, 2035 entries), so the implementation is covered by enumeration: every ordered '
+              'pair of every OSDD dimension (quick: <= 400 sampled per dimension) and LIS category, sampled triples, '
+              'cross-dimension and unknown-unit pairs, through convert / convert_function / convert_array / '
+              'convert_array_inplace / LIS convert, each result compared with the specification formula evaluated in exact '
+              'rational arithmetic on the table constants within a first-order forward error bound.'),
+        note='Exploration, not model checking, is the honest level for the floating-point side; the oracle is the spec formula.',
+        technique='TLA+ spec (TLC-checked laws and case classes) + exhaustive/sampled enumeration against the exact-rational spec formula'),
 }
 
 NOT_YET = 'check not built yet in this session; planned per DESIGN.md section 3'
